@@ -1,10 +1,130 @@
 import Driver.Wire
+import Sio.Model.Reconnect
 open Lean (Json)
 namespace Sio.KReconnect
-open Sio.Wire
+open Sio.Wire Sio.Reconnect
 
-/-- stub: replaced by the kernel's line-protocol handler -/
-def step (_ : Unit) (_ : Json) : Except String (Unit × Json) := throw "kernel not implemented"
+/-! Line protocol of the reconnection kernel.
+
+  {"op":"run","cfg":{"reconnection":b,"attempts":n,"delay":"p/q","delayMax":"p/q","rf":"p/q"},
+   "inputs":[{"connect":{"conn":n,"nss":[str…]}},
+             {"lose":"transportError|clientDisconnect|serverDisconnect|serverClose",
+              "outs":["T"|"L"|{"served":[b…]}…],"rands":["p/q"…],"abortAt":null|n,"fuel":n}]}
+  → {"events":[…],"connected":b,"task":b,"clean":b} | {"inapplicable":true}
+  {"op":"policy","cfg":…,"outcomes":[b…],"rands":[…],"abortAt":…,"fuel":n}
+  → {"waits":["p/q"…],"attempts":n,"final":"connected|gaveUp|aborted|running"}
+
+  Rationals travel as "numerator/denominator" strings (lowest terms on the way out), never as floats. -/
+
+def ratOfJson (j : Json) : Except String Q := do
+  let s ← j.getStr?
+  match s.splitOn "/" with
+  | [a, b] => do
+    let n ← intOfString a
+    let d ← natOfString b
+    if d == 0 then throw "zero denominator" else pure (mkRat n d)
+  | [a] => do let n ← intOfString a; pure (mkRat n 1)
+  | _ => throw s!"bad rational {s}"
+
+def ratToJson (q : Q) : Json := Json.str s!"{q.num}/{q.den}"
+
+def cfgOfJson (j : Json) : Except String Cfg := do
+  let rc ← (← j.getObjVal? "reconnection").getBool?
+  let n ← (← j.getObjVal? "attempts").getNat?
+  let d ← ratOfJson (← j.getObjVal? "delay")
+  let m ← ratOfJson (← j.getObjVal? "delayMax")
+  let f ← ratOfJson (← j.getObjVal? "rf")
+  pure ⟨rc, n, d, m, f⟩
+
+def outcomeOfJson (j : Json) : Except String Outcome :=
+  match j with
+  | Json.str "T" => pure .transport
+  | Json.str "L" => pure .lost
+  | _ => do
+    let a ← (← j.getObjVal? "served").getArr?
+    let bs ← a.toList.mapM (fun b => b.getBool?)
+    pure (.served bs)
+
+def causeOfName (s : String) : Except String Cause :=
+  if s == "transportError" then pure .transportError
+  else if s == "clientDisconnect" then pure .clientDisconnect
+  else if s == "serverDisconnect" then pure .serverDisconnect
+  else if s == "serverClose" then pure .serverClose
+  else throw s!"bad cause {s}"
+
+def optNat (j : Json) : Except String (Option Nat) :=
+  if j.isNull then pure none else do let n ← j.getNat?; pure (some n)
+
+def storedOfJson (j : Json) : Except String (Stored Nat) := do
+  let c ← (← j.getObjVal? "conn").getNat?
+  let a ← (← j.getObjVal? "nss").getArr?
+  let nss ← a.toList.mapM strOfJson
+  pure ⟨c, nss⟩
+
+def inputOfJson (j : Json) : Except String (Input Nat) :=
+  match j.getObjVal? "connect" with
+  | .ok s => do let st ← storedOfJson s; pure (.connect st)
+  | .error _ => do
+    let cause ← causeOfName (← (← j.getObjVal? "lose").getStr?)
+    let outs ← (← j.getObjVal? "outs").getArr?
+    let outs ← outs.toList.mapM outcomeOfJson
+    let rands ← (← j.getObjVal? "rands").getArr?
+    let rands ← rands.toList.mapM ratOfJson
+    let ab ← optNat (← j.getObjVal? "abortAt")
+    let fuel ← (← j.getObjVal? "fuel").getNat?
+    pure (.lose cause ⟨fun k => outs.getD k .transport, fun k => rands.getD k 0, ab, fuel⟩)
+
+def stateName : EioState → String
+  | .connected => "connected" | .disconnecting => "disconnecting" | .disconnected => "disconnected"
+
+def reasonText : Reason → String
+  | .clientDisconnect => "client disconnect"
+  | .serverDisconnect => "server disconnect"
+  | .transportError => "transport error"
+
+def finalName : Final → String
+  | .connected => "connected" | .gaveUp => "gaveUp" | .aborted => "aborted" | .running => "running"
+
+def evToJson : Ev Nat → Json
+  | .wait d => Json.mkObj [("wait", ratToJson d)]
+  | .attempt p => Json.mkObj [("attempt", Json.num p.conn),
+      ("nss", Json.arr (p.nss.map strToJson).toArray)]
+  | .handler h ns =>
+    match h with
+    | .connect => Json.mkObj [("h", Json.str "connect"), ("ns", strToJson ns)]
+    | .connectError => Json.mkObj [("h", Json.str "connect_error"), ("ns", strToJson ns)]
+    | .disconnect r => Json.mkObj [("h", Json.str "disconnect"), ("ns", strToJson ns),
+        ("reason", Json.str (reasonText r))]
+    | .disconnectFinal => Json.mkObj [("h", Json.str "__disconnect_final"), ("ns", strToJson ns)]
+  | .notified st start => Json.mkObj [("notified", Json.str (stateName st)), ("start", Json.bool start)]
+  | .taskCleared => Json.str "taskCleared"
+  | .left => Json.str "left"
+
+def step (_ : Unit) (j : Json) : Except String (Unit × Json) := do
+  let op ← (← j.getObjVal? "op").getStr?
+  if op == "run" then
+    let cfg ← cfgOfJson (← j.getObjVal? "cfg")
+    let ins ← (← j.getObjVal? "inputs").getArr?
+    let ins ← ins.toList.mapM inputOfJson
+    let c0 : Cli Nat := Cli.init cfg
+    match run c0 ins with
+    | none => pure ((), Json.mkObj [("inapplicable", Json.bool true)])
+    | some (c, evs) =>
+      pure ((), Json.mkObj [("events", Json.arr (evs.map evToJson).toArray),
+        ("connected", Json.bool c.connected), ("task", Json.bool c.task),
+        ("clean", Json.bool (cleanHistory c0 ins))])
+  else if op == "policy" then
+    let cfg ← cfgOfJson (← j.getObjVal? "cfg")
+    let outs ← (← j.getObjVal? "outcomes").getArr?
+    let outs ← outs.toList.mapM (fun b => b.getBool?)
+    let rands ← (← j.getObjVal? "rands").getArr?
+    let rands ← rands.toList.mapM ratOfJson
+    let ab ← optNat (← j.getObjVal? "abortAt")
+    let fuel ← (← j.getObjVal? "fuel").getNat?
+    let r := reconnect cfg (fun k => outs.getD k false) (fun k => rands.getD k 0) ab fuel
+    pure ((), Json.mkObj [("waits", Json.arr (r.waits.map ratToJson).toArray),
+      ("attempts", Json.num r.attempts), ("final", Json.str (finalName r.final))])
+  else throw s!"unknown op {op}"
 
 def main : IO Unit := lineLoop () step
 
